@@ -307,15 +307,9 @@ func init() {
 
 func init() {
 	// ----- coin algebra used by the fee checker (A-COIN) -----------------------------------------------
-	reg("(github.com/cosmos/cosmos-sdk/types.DecCoins).IsZero", "DecCoins.IsZero: every coin of the (possibly empty) list has a zero amount (A-COIN)", func(c *CallCtx) []Outcome {
-		return c.ret(TV{T: c.uf("decCoinsIsZero", "Bool", c.tv(0)), Ty: tBool})
-	})
 	reg("(github.com/cosmos/cosmos-sdk/types.DecCoins).Validate", "DecCoins.Validate: a pure partial check of the list (sorted, valid denoms, positive amounts) (A-COIN)", func(c *CallCtx) []Outcome {
 		errT := c.x.enc.FreshConst("maybeerr", "Int")
 		c.st.Assume(eq(eq(errT, "0"), c.uf("decCoinsValid", "Bool", c.tv(0))))
 		return c.ret(TV{T: errT, Ty: tError})
-	})
-	reg("(github.com/cosmos/cosmos-sdk/types.Coins).IsAnyGTE", "Coins.IsAnyGTE(a,b): b is non-empty and for some denom of a, b's amount of it is non-zero and not larger than a's (cosmos-sdk types/coin.go) (A-COIN)", func(c *CallCtx) []Outcome {
-		return c.ret(TV{T: c.uf("coinsIsAnyGTE", "Bool", c.tv(0), c.tv(1)), Ty: tBool})
 	})
 }
